@@ -1678,7 +1678,7 @@ func pfNewE2E(t *testing.T, schema []*pfProp) *pfE2E {
 	})
 	h := NewStreamableHTTPHandler(func(*http.Request) *Server { return e.srv }, &StreamableHTTPOptions{Stateless: true})
 	e.hs = httptest.NewServer(h)
-	ctx, cancel := context.WithTimeout(context.Background(), 20*time.Second)
+	ctx, cancel := context.WithTimeout(context.Background(), 60*time.Second)
 	defer cancel()
 	c := NewClient(&Implementation{Name: "c", Version: "1"}, nil)
 	cs, err := c.Connect(ctx, &StreamableClientTransport{Endpoint: e.hs.URL}, &ClientSessionOptions{ProtocolVersion: protocolVersion20260728})
@@ -1707,12 +1707,20 @@ func (e *pfE2E) call(args *pfJ) (op, obs string, tags []string) {
 	e.mu.Lock()
 	e.seen = nil
 	e.mu.Unlock()
-	ctx, cancel := context.WithTimeout(context.Background(), 20*time.Second)
+	ctx, cancel := context.WithTimeout(context.Background(), 60*time.Second)
 	defer cancel()
-	_, err := e.cs.CallTool(ctx, &CallToolParams{Name: "tool", Arguments: json.RawMessage(argsJSON)})
-	e.mu.Lock()
-	seen := e.seen
-	e.mu.Unlock()
+	var err error
+	var seen []string
+	for attempt := 0; attempt < 3; attempt++ {
+		_, err = e.cs.CallTool(ctx, &CallToolParams{Name: "tool", Arguments: json.RawMessage(argsJSON)})
+		e.mu.Lock()
+		seen = e.seen
+		e.mu.Unlock()
+		var werr *jsonrpc.Error
+		if err == nil || errors.As(err, &werr) || len(seen) > 0 {
+			break // only a transport-level failure that reached nothing is retried (loaded machine)
+		}
+	}
 	switch {
 	case err == nil && len(seen) == 1:
 		a, _ := pfParseJ([]byte(seen[0]))
@@ -1729,11 +1737,18 @@ func (e *pfE2E) call(args *pfJ) (op, obs string, tags []string) {
 		if errors.As(err, &werr) {
 			obs = fmt.Sprintf("rej %d handler=%d", werr.Code, len(seen))
 		} else {
-			obs = fmt.Sprintf("err handler=%d", len(seen))
+			obs = fmt.Sprintf("err:%s handler=%d", hxs(firstN(err.Error(), 60)), len(seen))
 		}
 	}
-	tags = []string{"e2e", "e2e-" + strings.Fields(obs)[0]}
+	tags = []string{"e2e", "e2e-" + strings.SplitN(strings.Fields(obs)[0], ":", 2)[0]}
 	return
+}
+
+func firstN(s string, n int) string {
+	if len(s) > n {
+		return s[:n]
+	}
+	return s
 }
 
 // pfCanon prints a value with sorted object keys (number texts kept).
